@@ -200,6 +200,7 @@ namespace bloch::runtime {
         std::vector<RuntimeField> staticFields;
         std::vector<Value> staticStorage;
         bool staticInitStarted = false;
+        std::vector<char> staticInitialiserRun;  // per static field: its initialiser has run (or is running)
         std::unordered_map<std::string, size_t> instanceFieldIndex;
         std::unordered_map<std::string, size_t> staticFieldIndex;
         std::unordered_map<std::string, std::vector<RuntimeMethod>> methods;
